@@ -84,10 +84,13 @@ pub fn check(thorough: bool, _seed: u64) -> Check {
         phases: vec![ph],
         extra: Default::default(),
         controls: vec![("exact Kruger slopes of the textbook example", Box::new(|| {
-            let a = analyse(&[0.0, 1.0, 2.0, 3.0], &[0.0, 1.0, 4.0, 9.0]).map_err(|f| f.what)?;
+            // reference model only (never the subject)
+            let qx: Vec<_> = [0.0, 1.0, 2.0, 3.0].iter().map(|&x| q(x)).collect();
+            let qy: Vec<_> = [0.0, 1.0, 4.0, 9.0].iter().map(|&y| q(y)).collect();
+            let (_, slopes) = exact_kruger(&qx, &qy);
             // secants 1,3,5: f1 = 2*1*3/4 = 1.5, f2 = 2*3*5/8 = 3.75, f0 = 1.5 - 0.75 = 0.75, f3 = 7.5 - 1.875 = 5.625
             let want = [0.75, 1.5, 3.75, 5.625];
-            for i in 0..4 { if a.slopes[i].to_f64() != want[i] { return Err(format!("slope {i}: {}", a.slopes[i].to_f64())); } }
+            for i in 0..4 { if slopes[i].to_f64() != want[i] { return Err(format!("slope {i}: {}", slopes[i].to_f64())); } }
             Ok(())
         }))],
     }
